@@ -94,3 +94,26 @@ def same_bits(a, b):
     a = np.asarray(a)
     b = np.asarray(b)
     return a.dtype.str == b.dtype.str and a.shape == b.shape and a.tobytes() == b.tobytes()
+
+
+def lane_distinct(dtype, shape, salt=0):
+    """Array whose elements have pairwise different bytes in every byte lane (so that any permutation of bytes
+    or of elements is visible) and are finite for floating types.  Deterministic in (dtype, shape, salt, seed)."""
+    dtype = np.dtype(dtype)
+    count = prod(shape)
+    n = dtype.itemsize
+    fsz = {'f': n, 'c': n // 2}.get(dtype.kind)
+    k = np.arange(count, dtype='int64')[:, None]
+    j = np.arange(n, dtype='int64')[None, :]
+    b = ((17 + 31 * k + 7 * j + 13 * salt + 5 * seed()) % 199 + 23).astype('uint8')     # 23..221, distinct per lane for count < 199
+    if fsz:
+        # the byte holding sign + high exponent bits must not make the exponent all ones (inf / nan):
+        # that lane draws from the allowed byte values only (still pairwise distinct)
+        mask = 0x7c if fsz == 2 else 0x7f
+        allowed = np.array([v for v in range(23, 222) if (v & mask) != mask], dtype='uint8')
+        for part in range(n // fsz):
+            msb = part * fsz + (fsz - 1)        # little-endian layout is built here
+            b[:, msb] = allowed[(17 + 31 * k[:, 0] + 7 * msb + 13 * salt + 5 * seed()) % len(allowed)]
+    le = b.reshape(-1).view(dtype.newbyteorder('<'))
+    out = le.astype(dtype).reshape(shape)
+    return out
